@@ -8,11 +8,14 @@ RULE = ("driver family 'respond': 1-2 simulated interfaces (IPv4 / IPv6 / both, 
         "off-link addresses, with and without probing) registered possibly while others probe, then random queries of every kind "
         "(type / subtype / meta PTR, SRV / TXT / ANY on case-variant instance names, A / AAAA / ANY on host names, unknown names; "
         "1-3 questions; known answers with TTL 0, 1, half-1, half, half+1, full, 2^31-1; source port 5353 or ephemeral; v4 or v6), "
-        "re-registrations with changed / unchanged data, unregister (known, unknown, case-variant), shutdown.")
+        "re-registrations with changed / unchanged data, unregister (known, unknown, case-variant), shutdown. Plus driver family 'conflict': "
+        "after a conflict rename every question type is put to every daemon for the original and for the new names (the name that was lost is "
+        "no longer answered for).")
 
 
 def run(tier, seed, t0):
-    return daemon.run_group(PROP, tier, seed, t0, [("respond", [])], "TraceRespond", "TraceRespond.cfg", PREFIXES,
+    return daemon.run_group(PROP, tier, seed, t0, [("respond", []), ("conflict", [], "TraceRespond", "TraceRespond.cfg", 40, 600)],
+                            "TraceRespond", "TraceRespond.cfg", PREFIXES,
                             [("MCResponder", "MCResponder.cfg")], ["C06.answered","C06.silent-case","C06.legacy-case"], ASSUME, RULE)
 
 
